@@ -195,6 +195,13 @@ def judge(H):
                 V.append(("two_batches_of_partition_in_flight", f"partition {tp}: produce request sent at {b['t_call']:.4f} "
                           f"while the one sent at {a['t_call']:.4f} was still outstanding (returned {a['t_ret']})",
                           {"first": a, "second": b}))
+    # ---- ... and at the connection: no Produce request for a partition is written behind an unanswered one for the
+    # same partition on the same open connection (broker-side tap, vf.cluster.frame_queued)
+    st["produce_replies_lost_on_open_connection"] = H.get("lost_produce_replies", 0)
+    for ov in H.get("conn_overlaps", []):
+        V.append(("two_batches_of_partition_in_flight_on_one_connection", f"partitions {ov['partitions']}: Produce corr="
+                  f"{ov['second_corr']} reached broker {ov['node']} on connection {ov['link']} while Produce corr="
+                  f"{ov['first_corr']} ({ov['first_fate']}) on the same open connection was still unanswered", {"overlap": ov}))
     if P["start_seq"] is not None and P["start_seq"] > 2**31 - 100:
         st["wrap_histories"] = 1
     return V, st, sig([P["idempotent"], P["acks"], sigparts])
